@@ -179,7 +179,7 @@ def run_zinc(rep, tier, want):
                 rep.case(json.dumps(meta, sort_keys=True))
                 continue
             try:
-                text = hs.dump(grids[0] if single else grids,
+                text = hs.dump(grids[0] if single else absval.series(grids, meta),
                                mode=[hs.MODE_ZINC, 'zinc', 'ZINC', hs.MODE_ZINC, 'Zinc'][len(docs) % 5 if not single else nid % 5])
             except Exception as e:
                 if isinstance(e, ValueError) and str(meta.get('payload', '')).startswith(('fx_', 'edge_fx')):
@@ -322,7 +322,7 @@ def replay(prop, path):
     single = meta['t'] != 'multi'
     ok = True
     try:
-        text = hs.dump(grids[0] if single else grids, mode=hs.MODE_ZINC)
+        text = hs.dump(grids[0] if single else absval.series(grids, meta), mode=hs.MODE_ZINC)
         print('dumped text:', repr(text))
         cases = [{'id': 1, 'k': 'denotes', 'strict': True, 'text': absval.cps(text), 'expect': A.doc(grids)}]
         if prop == 'C01':
